@@ -146,6 +146,25 @@ class Checker:
         from ..engine import peval
         flat = peval.flatten({n_: f_.node for n_, f_ in self.comms.methods.items()}, f.node, depth=2, impure=True)
         flat = dealias(flat)
+
+        class _Beta(ast.NodeTransformer):
+            # an inlined helper that was handed a lambda applies it on the spot: (lambda p: <e>)(a) is <e> with a for p (plain-name arguments only)
+            def visit_Call(s, n):
+                n = s.generic_visit(n)
+                fn_ = n.func
+                if isinstance(fn_, ast.Lambda) and not n.keywords and not fn_.args.vararg and not fn_.args.kwarg and not fn_.args.kwonlyargs \
+                        and not fn_.args.defaults and len(n.args) == len(fn_.args.posonlyargs + fn_.args.args) \
+                        and all(isinstance(a_, (ast.Name, ast.Constant)) for a_ in n.args):
+                    mp = {p_.arg: a_ for p_, a_ in zip(fn_.args.posonlyargs + fn_.args.args, n.args)}
+
+                    class _S(ast.NodeTransformer):
+                        def visit_Name(s2, m):
+                            if isinstance(m.ctx, ast.Load) and m.id in mp:
+                                return copy.deepcopy(mp[m.id])
+                            return m
+                    return ast.copy_location(_S().visit(copy.deepcopy(fn_.body)), n)
+                return n
+        flat = _Beta().visit(flat)
         ast.fix_missing_locations(flat)
         g = copy.copy(f)
         g.node = flat
